@@ -18,13 +18,15 @@ variable {F : Type} [Field F] [DecidableEq F]
 theorem C02_encode_length (c : Codec F) (hc : GoodCodec c) (msg : List F) (k : Nat)
     (hm : msg.length ≤ effK c k) (hk : effK c k ≤ c.n) :
     (encode c msg k).length = c.n - effK c k := by
-  sorry
+  have _ := hm; have _ := hk   -- (not needed)
+  exact Pff.RSProofs.length_encode c hc msg k
 
 /-- A short message behaves as if left-padded with zeros. -/
 theorem C02_short_as_padded (c : Codec F) (hc : GoodCodec c) (msg : List F) (k : Nat)
     (hm : msg.length ≤ effK c k) (hk : effK c k ≤ c.n) :
     encode c msg k = encode c (List.replicate (effK c k - msg.length) 0 ++ msg) k := by
-  sorry
+  have _ := hc; have _ := hk   -- (not needed)
+  exact Pff.RSProofs.short_as_padded c msg k hm
 
 /-- Zero padding is never mistaken for an erasure: the positions handed to the library are
 exactly the positions of the erasure symbol in the received `message ++ ecc`, shifted by the pad
@@ -35,7 +37,7 @@ theorem C02_pad_not_erasure (c : Codec F) (msg ecc : List F) (k : Nat) (ec : F) 
         (fun i => (msg ++ ecc)[i]? = some ec)).map (· + call.padLen)) ∧
     call.padLen = effK c k - msg.length ∧
     call.word.take call.padLen = List.replicate call.padLen 0 := by
-  sorry
+  exact Pff.RSProofs.pad_not_erasure c msg ecc k ec oe call h
 
 /-- Uniqueness behind contract W: two codewords within capacity of the same received word (same
 erasure set) coincide. -/
@@ -45,11 +47,12 @@ theorem C02_decode_unique (c : Codec F) (hc : GoodCodec c) (nsym : Nat) (hns : n
     (E : Option (List Nat)) (oe : Bool)
     (hcap1 : WithinCap word cw nsym E oe) (hcap2 : WithinCap word cw' nsym E oe) :
     cw = cw' := by
-  sorry
+  have _ := hns   -- (not needed)
+  exact Pff.RSProofs.decode_unique c hc nsym word cw cw' hw h1 h2 hc1 hc2 E oe hcap1 hcap2
 
 /-- Contract W is satisfiable for every good codec. -/
 theorem C02_contract_consistent (c : Codec F) (hc : GoodCodec c) : ∃ core : Core F, CoreW c core := by
-  sorry
+  exact Pff.RSProofs.contract_consistent c hc
 
 /-- Errors only (erasure handling off): any received word within ⌊(n−k)/2⌋ wrong symbols of
 message+parity decodes to exactly the original message and parity. -/
@@ -58,7 +61,7 @@ theorem C02_decode_exact_errors (c : Codec F) (hc : GoodCodec c) (core : Core F)
     (msg' ecc' : List F) (hl : msg'.length = msg.length) (he : ecc'.length = c.n - effK c k)
     (hcap : 2 * hdist (msg' ++ ecc') (msg ++ encode c msg k) ≤ c.n - effK c k) :
     decode core c msg' ecc' k false 0 false = .ok (msg, encode c msg k) := by
-  sorry
+  exact Pff.RSProofs.decode_exact_errors c hc core hW msg k hm hk msg' ecc' hl he hcap
 
 /-- Errors and erasures (erasure handling on, erasure symbol `ec`): with `f` = number of received
 positions holding the erasure symbol and `e` = number of other positions that are wrong,
@@ -71,6 +74,6 @@ theorem C02_decode_exact_erasures (c : Codec F) (hc : GoodCodec c) (core : Core 
             + ((List.range (msg' ++ ecc').length).filter (fun i => (msg' ++ ecc')[i]? = some ec)).length
             ≤ c.n - effK c k) :
     decode core c msg' ecc' k true ec false = .ok (msg, encode c msg k) := by
-  sorry
+  exact Pff.RSProofs.decode_exact_erasures c hc core hW msg k hm hk msg' ecc' hl he ec hcap
 
 end Pff.RSSpec
